@@ -15,6 +15,30 @@ Proof.
   - destruct nm; [discriminate|]. apply andb_true_iff in H. apply IHp3. apply H.
   - apply andb_true_iff in H. apply IHp3. apply H.
   - apply andb_true_iff in H. apply IHp3. apply H.
+  - destruct nm; [discriminate|]. apply andb_true_iff in H. apply IHp2. apply H.
+Qed.
+
+Lemma is_nil_eq l : is_nil l = true -> l = [].
+Proof. destruct l; [reflexivity|discriminate]. Qed.
+
+Lemma vardecls_allnames p : forall x, In x (vardecls p) -> In x (allnames p).
+Proof.
+  induction p; cbn [vardecls allnames]; intros y Hy.
+  - destruct Hy.
+  - right. apply IHp. exact Hy.
+  - right. apply IHp. exact Hy.
+  - apply in_app_iff in Hy. destruct Hy as [Hy|Hy]; [|right; apply IHp; exact Hy].
+    destruct (is_var d); [destruct Hy as [<-|[]]; left; reflexivity|destruct Hy].
+  - apply in_app_iff in Hy. apply in_app_iff. destruct Hy as [Hy|Hy]; [left; apply IHp1|right; apply IHp2]; exact Hy.
+  - apply in_app_iff. right. apply in_app_iff. right. apply in_app_iff. right. apply IHp3. exact Hy.
+  - apply in_app_iff. right. apply in_app_iff. right. apply IHp3. exact Hy.
+  - right. apply in_app_iff. right. apply IHp2. exact Hy.
+  - apply in_app_iff. right. apply IHp2. exact Hy.
+  - apply in_app_iff in Hy. apply in_app_iff. destruct Hy as [Hy|Hy]; [left; apply IHp1; exact Hy|right].
+    apply in_app_iff in Hy. apply in_app_iff. destruct Hy as [Hy|Hy]; [left; apply IHp2|right; apply IHp3]; exact Hy.
+  - apply in_app_iff in Hy. apply in_app_iff. destruct Hy as [Hy|Hy]; [left; apply IHp1; exact Hy|right].
+    apply in_app_iff in Hy. apply in_app_iff. destruct Hy as [Hy|Hy]; [left; apply IHp2|right; apply IHp3]; exact Hy.
+  - apply in_app_iff. right. apply in_app_iff. right. apply IHp2. exact Hy.
 Qed.
 
 Lemma pcore_d_lexvar p : pcore_d p = true -> lexdecls p = [] /\ vardecls p = [].
@@ -24,6 +48,7 @@ Proof.
   - destruct d; try discriminate. cbn. apply IHp. exact H.
   - destruct nm; [discriminate|]. apply andb_true_iff in H. apply IHp3. apply H.
   - apply andb_true_iff in H. apply IHp3. apply H.
+  - destruct nm; [discriminate|]. apply andb_true_iff in H. apply IHp2. apply H.
 Qed.
 
 Lemma pcore_d_allnames p : pcore_d p = true -> forall x, In x (allnames p) -> In x (headdecls p) \/ In x (default_names p).
@@ -42,6 +67,9 @@ Proof.
     apply in_app_iff in Hy. destruct Hy as [Hy|Hy]; [right; apply in_app_iff; left; exact Hy|].
     apply in_app_iff in Hy. destruct Hy as [Hy|Hy]; [right; apply in_app_iff; right; apply in_app_iff; left; exact Hy|].
     destruct (IHp3 H y Hy) as [G|G]; [left; exact G|right; apply in_app_iff; right; apply in_app_iff; right; exact G].
+  - destruct nm; [discriminate|]. apply andb_true_iff in H. destruct H as [_ H]. cbn [app] in *.
+    apply in_app_iff in Hy. destruct Hy as [Hy|Hy]; [right; apply in_app_iff; left; exact Hy|].
+    destruct (IHp2 H y Hy) as [G|G]; [left; exact G|right; apply in_app_iff; right; exact G].
 Qed.
 
 (* the common part of Block, Func, Arrow and Catch: a scope has been entered (frame B on top of z), its
@@ -121,9 +149,11 @@ Section Nested.
 End Nested.
 
 (* ---- Block ------------------------------------------------------------------------------------------------------ *)
-Lemma run_ok_block b k : headdecls b = [] -> headdecls k = [] -> run_ok b -> run_ok k -> run_ok (Block b k).
+Lemma run_ok_block b k :
+  headdecls b = [] -> (forall x, In x (headdecls k) -> ~ In x (allnames b)) -> run_ok b -> run_ok k -> run_ok (Block b k).
 Proof.
-  intros Hb0 Hk0 IHb IHk a fr pr rest A Hnd Hlex Hvar _ _ Hok.
+  intros Hb0 Hkfresh IHb IHk a fr pr rest A Hnd Hlex Hvar Hndh Hhead Hok.
+  cbn [headdecls] in Hndh, Hhead.
   cbn [lexdecls] in Hnd, Hlex. cbn [vardecls] in Hvar. cbn [spec_ok] in Hok.
   apply andb_true_iff in Hok. destruct Hok as [Hok Hokk]. apply andb_true_iff in Hok. destruct Hok as [Hsc Hokb].
   destruct (scope_ok_spec [] b Hsc) as (Hndb & Hlv & _).
@@ -162,8 +192,9 @@ Proof.
   { exact Hnd. } { exact Hlex. }
   { rewrite Ebelow. intros y Hy. apply Hvar. apply in_app_iff. left. exact Hy. }
   { intros y Hy. apply Hvar. apply in_app_iff. right. exact Hy. }
-  { rewrite Hk0. constructor. }
-  { rewrite Hk0. intros y []. }
+  { exact Hndh. }
+  { intros y Hy. destruct (Hhead y Hy) as (Q1 & Q2 & Q3). split; [exact Q1|]. split; [exact Q2|]. split; [exact Q3|].
+    split; [|apply Hkfresh; exact Hy]. rewrite Ebelow. intros Hi. apply (Hkfresh y Hy). apply vardecls_allnames. exact Hi. }
   { exact Hokk. }
   exists a', fr', rest'. split.
   { cbn [linearise arun astep]. rewrite H1. rewrite arun_app, R2. exact R. }
@@ -178,6 +209,25 @@ Proof.
   rewrite <- HeqRB. destruct RB as [rb n1]. cbn [fst snd] in *.
   destruct (resolve (env_of ((fr, pr) :: rest)) (func_of ((fr, pr) :: rest)) (fid fr) false n1 k) as [rk n2].
   cbn [fst snd] in *. split; [|exact N]. rewrite F, rev_app_distr, <- app_assoc. reflexivity.
+Qed.
+
+(* ---- Class without expression name: a block that declares nothing ------------------------------------------------- *)
+Lemma run_ok_class ms k :
+  lexdecls ms = [] -> vardecls ms = [] -> run_ok (Block ms k) -> run_ok (Class None ms k).
+Proof.
+  intros Hl Hv H a fr pr rest A Hnd Hlex Hvar Hndh Hhead Hok.
+  destruct (H a fr pr rest A Hnd Hlex) as (a' & fr' & rest' & R & A' & G & P1 & P2 & P3 & P4 & F & N).
+  { cbn [vardecls]. rewrite Hv. exact Hvar. }
+  { exact Hndh. } { exact Hhead. }
+  { cbn [spec_ok] in *. unfold scope_ok. rewrite Hl. exact Hok. }
+  exists a', fr', rest'. split; [exact R|]. split; [exact A'|]. split.
+  { cbn [lexdecls headdecls vardecls] in *. rewrite Hv in G. exact G. }
+  split; [exact P1|]. split.
+  { intros y Hy. apply P2. cbn [vardecls] in *. rewrite Hv. exact Hy. }
+  split; [exact P3|]. split; [exact P4|].
+  cbn [resolve] in *. rewrite Hl in F, N.
+  pose proof (fun e => resolve_drop_nil ms [] (anext a) false e) as D. cbn [app] in D. rewrite D in F, N.
+  split; [exact F|exact N].
 Qed.
 
 (* ---- Func / Arrow, with default values ------------------------------------------------------------------------------ *)
@@ -448,7 +498,7 @@ Proof.
   - destruct d; try discriminate. apply run_ok_param. apply (proj2 IHp). exact Hc.
   - (* Block *)
     apply andb_true_iff in Hc. destruct Hc as [H1 H2].
-    apply run_ok_block; [apply core_d_headdecls; exact H1|apply core_d_headdecls; exact H2|apply (proj1 IHp1); exact H1|apply (proj1 IHp2); exact H2].
+    apply run_ok_block; [apply core_d_headdecls; exact H1|rewrite (core_d_headdecls p2 H2); intros y []|apply (proj1 IHp1); exact H1|apply (proj1 IHp2); exact H2].
   - (* Func in a statement list *)
     destruct nm; [discriminate|]. apply andb_true_iff in Hc. destruct Hc as [Hc H4]. apply andb_true_iff in Hc. destruct Hc as [Hc H3].
     apply andb_true_iff in Hc. destruct Hc as [H1 H2].
@@ -473,6 +523,18 @@ Proof.
     apply andb_true_iff in Hc. destruct Hc as [Hc H4]. apply andb_true_iff in Hc. destruct Hc as [Hc H3].
     apply andb_true_iff in Hc. destruct Hc as [H1 H2].
     apply run_ok_catch; [exact H1|exact H2|apply core_d_headdecls; exact H3|apply core_d_headdecls; exact H4|apply (proj1 IHp2); exact H3|apply (proj1 IHp3); exact H4].
+  - (* Class in a statement list *)
+    destruct nm; [discriminate|]. apply andb_true_iff in Hc. destruct Hc as [Hc H4]. apply andb_true_iff in Hc. destruct Hc as [Hc H3].
+    apply andb_true_iff in Hc. destruct Hc as [H1 H2]. apply is_nil_eq in H2. apply is_nil_eq in H3.
+    apply run_ok_class; [exact H2|exact H3|].
+    apply run_ok_block; [apply core_d_headdecls; exact H1|rewrite (core_d_headdecls p2 H4); intros y []|apply (proj1 IHp1); exact H1|apply (proj1 IHp2); exact H4].
+  - (* Class in a parameter list *)
+    destruct nm; [discriminate|]. apply andb_true_iff in Hc. destruct Hc as [Hc H5]. apply andb_true_iff in Hc. destruct Hc as [Hc H4].
+    apply andb_true_iff in Hc. destruct Hc as [Hc H3]. apply andb_true_iff in Hc. destruct Hc as [H1 H2].
+    apply is_nil_eq in H2. apply is_nil_eq in H3.
+    apply run_ok_class; [exact H2|exact H3|].
+    apply run_ok_block; [apply core_d_headdecls; exact H1| |apply (proj1 IHp1); exact H1|apply (proj2 IHp2); exact H5].
+    intros y Hy Hin. apply (disjointb_spec _ _ H4 y Hin Hy).
 Qed.
 
 Corollary run_core p : core_d p = true -> run_ok p.
